@@ -41,6 +41,11 @@ Fixpoint omap_acc {A B} (f : A -> option B) (l : list A) (acc : list B) : option
   end.
 Definition omap {A B} (f : A -> option B) (l : list A) : option (list B) := omap_acc f l [].
 
+(* option bind *)
+Definition obind {A B} (o : option A) (k : A -> option B) : option B :=
+  match o with Some x => k x | None => None end.
+Notation "x <- o ;; k" := (obind o (fun x => k)) (at level 61, o at next level, right associativity).
+
 (* the last [Some] of a list, [None] if there is none: "the last insertion wins" *)
 Definition last_some {A} (l : list (option A)) : option A :=
   fold_left (fun acc o => match o with Some x => Some x | None => acc end) l None.
